@@ -310,6 +310,8 @@ class Harness:
         if kind in ('add', 'add0'):
             p = [0, 0, 0] if kind == 'add0' else op[2]
             ok = self._in_range(p)
+            if a[PC] is not None and before is None:      # (a lookup that finds nothing, as models do before placing an agent)
+                raise Violation(f'agent {k} answers a position component although it has none')
             try:
                 if kind == 'add0':
                     w.env.add_agent(a)
